@@ -281,8 +281,8 @@ func (c19) Shrink(plan interface{}) []interface{} {
 	if p.Sim.Policy != "fifo" && p.Sim.Choices == nil {
 		add(func(q *C19Plan) { q.Sim.Policy = "fifo" })
 	}
-	if p.Sim.PoolBuggy || p.Sim.MapShuffle {
-		add(func(q *C19Plan) { q.Sim.PoolBuggy = false; q.Sim.MapShuffle = false })
+	if p.Sim.MapShuffle {
+		add(func(q *C19Plan) { q.Sim.MapShuffle = false })
 	}
 	return out
 }
